@@ -116,6 +116,23 @@ theorem C06_pow_int (env : ι → UnitInfo ℝ) (hpos : EnvPos env) (q : Qty ι 
   simp only [Qty.base, Mag.pow, Mag.new_real, rpow_real]
   rw [hk, Real.rpow_intCast, Real.rpow_intCast, mul_zpow]
 
+/-- an integer-valued exponent in *any* spelling — pair `(2,1)`, unreduced pair or Fraction
+    `(4,2)`, float `2.0` (its Fraction is `⟨2,1⟩`) — and any sign of the value: the result is the
+    one of the int spelling, `base (q^p) = (base q)^k` with `k = p.num / p.den`. -/
+theorem C06_pow_integral (env : ι → UnitInfo ℝ) (hpos : EnvPos env) (q : Qty ι ℝ) (p : Frac) (k : ℤ)
+    (hp : p.den ≠ 0) (hk : p.num = k * p.den) :
+    ∃ r, q.pow env p = .ok r ∧ r.base env = (q.base env) ^ k ∧
+      (∃ r', q.pow env ⟨k, 1⟩ = .ok r' ∧ r'.base env = r.base env) := by
+  obtain ⟨r', hr', hb'⟩ := C06_pow_int env hpos q k
+  have h1 : (Qty.new env (q.mag.pow p.toRat) (q.units.scale p)).base env = (q.base env) ^ k := by
+    rw [new_base, magnitude_scale env hpos]
+    have hq : ((p.toRat : ℚ) : ℝ) = (k : ℝ) := by
+      have hd : (p.den : ℝ) ≠ 0 := Int.cast_ne_zero.mpr hp
+      rw [toRat_cast, hk]; push_cast; field_simp
+    simp only [Qty.base, Mag.pow, Mag.new_real, rpow_real]
+    rw [hq, Real.rpow_intCast, Real.rpow_intCast, mul_zpow]
+  exact ⟨_, by simp [Qty.pow, hp]; rfl, h1, r', hr', hb'.trans h1.symm⟩
+
 /-- a pair with denominator 0 is refused (`power[0]/power[1]` raises). -/
 theorem C06_pow_refuse (env : ι → UnitInfo ℝ) (q : Qty ι ℝ) (n : ℤ) :
     ∃ msg, q.pow env ⟨n, 0⟩ = .error msg := ⟨_, by simp [Qty.pow]; rfl⟩
@@ -194,6 +211,8 @@ example : BU.WF ([("k:m", ⟨1, 1⟩), ("s", ⟨-2, 1⟩)] : BU String) := by
   intro p hp; simp at hp; rcases hp with rfl | rfl <;> decide
 
 /-- `km` and `m` have the same dimension; `m` and `s` do not; `km·m⁻¹` is dimensionless. -/
+example : (⟨4, 2⟩ : Frac).den ≠ 0 ∧ (⟨4, 2⟩ : Frac).num = (2 : ℤ) * (⟨4, 2⟩ : Frac).den := by decide
+
 example : BU.KeysNodup ([("k:m", ⟨1, 1⟩), ("s", ⟨-2, 1⟩)] : BU String) := by
   simp [BU.KeysNodup]
 
